@@ -48,8 +48,11 @@ def install_strings(x, ctx):
         if name == "replace" and not (recv.py is not None and all(a.py is not None for a in args)):
             a, b = args[0].z(), args[1].z()
             t = replall(recv.z(), a, b)
-            # assumed contract of str.replace (all occurrences): a no longer occurs (b does not contain a, a non-empty); no line break is introduced
-            x.assume.append(AND(IMP(AND(z3.Length(a) > 0, NOT(z3.Contains(b, a))), NOT(z3.Contains(t, a))), IMP(AND(nolb(recv.z()), nolb(b)), nolb(t))))
+            # assumed contract of str.replace (all occurrences, left to right, non-overlapping): when the replacement is a single space and the
+            # pattern is non-empty and contains no space, the pattern no longer occurs (an occurrence could neither include an inserted space nor
+            # lie inside an unreplaced stretch).  With an EMPTY replacement occurrences can re-form ("**//".replace("*/", "") == "*/"): no guarantee.
+            x.assume.append(AND(IMP(AND(z3.Length(a) > 0, b == z3.StringVal(" "), NOT(z3.Contains(a, z3.StringVal(" ")))), NOT(z3.Contains(t, a))),
+                                IMP(AND(nolb(recv.z()), nolb(b)), nolb(t))))
             return VStr(None, t)
         if name == "rstrip" and recv.py is None and not args:
             t = rstrip_f(recv.z()); x.assume.append(AND(IMP(nolb(recv.z()), nolb(t)), z3.PrefixOf(t, recv.z()))); return VStr(None, t)
@@ -193,12 +196,13 @@ def u_parameters(ctx):
     f, dp = mk_formatter(st, ";")
     numtxt = z3.Function("numtxt", z3.RealSort(), S)
     x.contracts[("DefaultFormatter", "number")] = lambda x_, recv, args, kwargs, st_: VStr(None, numtxt(x_.as_num(st_, args[0]).val))     # verified in its own unit
-    keys = ["Z", "F", "x", "K"]          # given out of order and in mixed case on purpose: axes must come first, in X, Y, Z order
+    keys = ["Z", "F", "x", "K"]          # K carries a numpy scalar (np.float32): a Number that is not a python float          # given out of order and in mixed case on purpose: axes must come first, in X, Y, Z order
     d = VDict({}, {})
     vals = {}
     for k in keys:
         o, wf = opt_num(f"p_{k}", finite=True); ctx.assume(wf)
         if k.upper() not in AXES: o = VOpt(F, o.inner)
+        if k == "K": o.inner.pytype = "np.float32"
         d.present[k] = fresh(f"given_{k}", z3.BoolSort()); d.vals[k] = o; vals[k] = o
     pd = st.alloc("dict", {"$d": d})
     exits = ctx.run(x, "DefaultFormatter.parameters", [f, pd], {}, st)
